@@ -43,8 +43,18 @@ func VerifC20_Identity() {
 		return h
 	})
 	verifrt.Override("(*github.com/gr33nbl00d/caddy-revocation-validator/crl/crlloader.URLLoader).normalizeUrl", func(l *URLLoader) (string, error) { return l.UrlString, nil })
-	u1, u2 := verifrt.NondetString("u1"), verifrt.NondetString("u2")
-	verifrt.Assume(u1 != u2)
+	var u1, u2 string
+	switch verifrt.Choose(4) {
+	case 0: // two arbitrary distinct location strings
+		u1, u2 = verifrt.NondetString("u1"), verifrt.NondetString("u2")
+		verifrt.Assume(u1 != u2)
+	case 1: // distinct only by the case of the (case-sensitive) path
+		u1, u2 = "http://pki.example.com/crl/RootCA.crl", "http://pki.example.com/crl/rootca.crl"
+	case 2: // distinct only by a trailing separator
+		u1, u2 = "http://pki.example.com/crl", "http://pki.example.com/crl/"
+	case 3: // distinct only by an encoded separator
+		u1, u2 = "http://pki.example.com/a%2Fb.crl", "http://pki.example.com/a/b.crl"
+	}
 	a := &URLLoader{UrlString: u1}
 	b := &URLLoader{UrlString: u2}
 	ia, _ := a.GetCRLLocationIdentifier()
